@@ -17,14 +17,14 @@ LEVEL_TEXT = ("Theorems (Props/C02.v) about the kernel translated from core.py o
               "every grid shape, all non-zero widths, all coefficient arrays and all fields, over any "
               "field of characteristic /= 2, amat_x subtracts exactly the finite-integration operator "
               "curl^T M_f curl - M_e (2-cell face / 4-cell edge averages), masks the lower PEC boundary, "
-              "writes nothing else; its curl-curl part annihilates every discrete gradient. Unbounded "
+              "writes nothing else; its curl-curl part annihilates every discrete gradient; the operator is "
+              "(complex-)symmetric, <A e, g> = <e, A g> for all PEC fields (3-D summation by parts). Unbounded "
               "in shape; tests sample one grid and one field.")
 LEVEL_NOTE = ("Trusted: Coq kernel, py2coq translator (validated by running the generated model on exact "
               "rationals against the compiled kernel and its .py_func), Model/FIT.v as the spec "
               "(cross-checked by an independent numpy operator over the full edge basis). Rounding is "
               "not modelled (exact field arithmetic); 'jit agrees with source to rounding' and the "
-              "VolumeModel coefficient formulas rest on correspondence. Global complex symmetry: see "
-              "evidence (theorem list).")
+              "VolumeModel coefficient formulas rest on correspondence.")
 TECHNIQUE = "Coq proof (field/lia) over a model regenerated from source by a Python-ast translator"
 DESIGN_REF = "DESIGN.md section 6 C02"
 GEN = ['CoreAmat']
